@@ -11,7 +11,15 @@ MAX_ROWS = 4000
 
 
 def strategy():
-    return st.randoms(use_true_random=False)
+    """A random.Random seeded by ONE Hypothesis-drawn integer per case (still a pure
+    function of the Hypothesis seed, i.e. of VERIF_SEED and the shard).  Measured while
+    building C18: with use_true_random=False every rng call is a separate Hypothesis
+    draw, and for generators making hundreds of draws per program Hypothesis then
+    produces mostly span-copy near-duplicates of earlier examples, discards ~15 % of
+    the examples half-built (entropy buffer overrun) and lands on the first alternative
+    2-3 times more often than designed; nothing is shrunk by hyp_run anyway (failures
+    are delta-debugged on the program)."""
+    return st.randoms(use_true_random=True)
 
 
 def expected_rows(ev, prog, pred):
